@@ -1225,3 +1225,163 @@ Q(name="e2_dgram_write", props=["C16", "C13"], func=r"datagrams\.rs[^>]*>::write
   functions=["DatagramState::write"], pre=lambda c: ule(c.inp("*_2.1", BV64), bv((1 << 63) - 1)), post=dw_post,
   bounds="every queue state, buffer fill and size limit: a frame is written iff buffer length + Datagram::size(flag) <= limit, it is encoded with the SAME length flag the size was computed with (size/encode themselves: frame obligations), otherwise the datagram returns to the head of the queue; VecDeque opaque",
   replay=("dgram_write_native", lambda m: [dict(l0=l, used=u, max_size=mx) for (l, u, mx) in ((50, 10, 62), (50, 10, 61), (50, 10, 63), (200, 0, 202), (200, 0, 203), (0, 5, 7), (0, 5, 6))]))
+
+
+# ------------------------------------------------------------------ C04: key updates - the key phase flips exactly when the peer's update was authenticated
+def dp_post(c, p):
+    st = p.p.state
+    body = p.called(r"decrypt_packet_body$")
+    if len(body) != 1:
+        return "false"
+    res = body[0][2]
+    # the decision inputs are the current key phase and the previous / next keys of THIS connection
+    a = body[0][1]
+    kp = c.inp(_conn(c, "key_phase"), BOOL)
+    if a[3][0] != "val" or a[3][1].t != kp or a[1] != ("ref", _conn(c, "spaces")):
+        return "false"
+    is_err = eq(c.inp(res + "#discr", I64), bv(1))
+    some = eq(c.inp(res + "@Ok.0#discr", I64), bv(1))
+    number = c.inp(res + "@Ok.0@Some.0.0", BV64)
+    acked = c.inp(res + "@Ok.0@Some.0.1", BOOL)
+    incoming = c.inp(res + "@Ok.0@Some.0.2", BOOL)
+    upd = p.called(r"Connection::update_keys$")
+    tmr = p.called(r"set_key_discard_timer$")
+    ret_ok = eq(c.ex.read_key(st, "_0#discr", I64).t, bv(0))
+    conj = []
+    if upd:
+        # keys are rotated once, as a REMOTE update, ending the old phase at this packet
+        if len(upd) != 1 or upd[0][1][2][0] != "val" or upd[0][1][2][1].t != "true":
+            return "false"
+        snap = _Snap(st, upd[0][3])
+        ep = upd[0][1][1][1]
+        conj += [not_(is_err), some, incoming, eq(c.ex.read_key(snap, ep + "#discr", I64).t, bv(1)), eq(c.ex.read_key(snap, ep + "@Some.0.0", BV64).t, number)]
+        if not tmr:
+            return "false"
+    else:
+        conj.append(or_(is_err, not_(some), not_(incoming)))
+        # without a rotation the key phase is untouched
+        conj.append(eq(c.ex.read_key(st, _conn(c, "key_phase"), BOOL).t, kp))
+    # failure to decrypt is reported, success returns the packet number
+    conj.append(eq(ret_ok, not_(is_err)))
+    conj.append(imp(and_(not_(is_err), some), eq(c.ex.read_key(st, "_0@Ok.0@Some.0", BV64).t, number)))
+    return and_(*conj)
+
+
+Q(name="e2_decrypt_packet_key_update", props=["C04"], func=r"connection/mod\.rs:245:1[^>]*>::decrypt_packet$",
+  pure=[r"decrypt_packet_body$", r"Header::space$"], allowed_panics=r"attempt to",
+  modifies=lambda c: {r"set_key_discard_timer$": [_conn(c, "timers")]},
+  functions=["Connection::decrypt_packet"],
+  pre=lambda c: "true", post=dp_post,
+  bounds="every outcome of packet_crypto::decrypt_packet_body (opaque: error, unprotected, or packet number with the two key-update flags): keys are rotated exactly when the body authenticated under the NEXT keys (incoming_key_update), once, as a remote update ending the old phase at this packet number, and the discard timer is armed; otherwise the key phase is untouched; the packet number returned is the authenticated one; set_key_discard_timer is assumed to write the timer table only",
+  replay=("conn_update_keys_native", lambda m: [dict(remote=0), dict(remote=1)]))
+
+
+def uk_post(c, p):
+    st = p.p.state
+    kp = _conn(c, "key_phase")
+    prev = _conn(c, "prev_crypto")
+    conj = [eq(c.ex.read_key(st, kp, BOOL).t, not_(c.inp(kp, BOOL))),
+            eq(c.ex.read_key(st, prev + "#discr", I64).t, bv(1)),
+            eq(c.ex.read_key(st, prev + "@Some.0.%d" % c.field("connection/packet_crypto.rs", "PrevCrypto", "update_unacked"), BOOL).t, c.inp("_3", BOOL))]
+    ep = prev + "@Some.0.%d" % c.field("connection/packet_crypto.rs", "PrevCrypto", "end_packet")
+    conj.append(eq(c.ex.read_key(st, ep + "#discr", I64).t, c.inp("_2#discr", I64)))
+    conj.append(imp(eq(c.inp("_2#discr", I64), bv(1)), eq(c.ex.read_key(st, ep + "@Some.0.0", BV64).t, c.inp("_2@Some.0.0", BV64))))
+    # packets sent under the new keys are counted from zero (confidentiality limit)
+    im = p.called(r"index_mut$")
+    if not im:
+        return "false"
+    swk = "*%s.%d" % (im[-1][2], c.field("connection/spaces.rs", "PacketSpace", "sent_with_keys"))
+    if "'SpaceId', 2)" not in im[-1][2]:
+        return "false"
+    conj.append(eq(c.ex.read_key(st, swk, BV64).t, bv(0)))
+    return and_(*conj)
+
+
+Q(name="e2_update_keys", props=["C04"], func=r"connection/mod\.rs:245:1[^>]*>::update_keys$",
+  pure=[r"index_mut$"], allowed_panics=r"expect_failed|unwrap_failed|attempt to",
+  functions=["Connection::update_keys"], pre=lambda c: ule(c.inp("_2#discr", I64), bv(1)), post=uk_post,
+  bounds="every connection state: one key update flips the key phase exactly once, keeps the old keys as prev_crypto tagged with who initiated the update and with the packet that ended the phase, and restarts the sent-with-these-keys counter of the Data space; key derivation opaque",
+  replay=("conn_update_keys_native", lambda m: [dict(remote=0), dict(remote=1)]))
+
+
+# ------------------------------------------------------------------ C04: which keys authenticate a packet (RFC 9001 6.3: current / previous / next key phase, 0-RTT)
+def dpb_pre(c):
+    return and_(ule(c.inp("_5#discr", I64), bv(1)), ule(c.inp("call:Header::space(*_1.0)#discr", I64), bv(2)))
+
+
+def dpb_post(c, p):
+    st = p.p.state
+    dec = p.called(r"PacketKey>::decrypt$")
+    if not dec:
+        return "true"                         # unprotected packet / no packet number: nothing is decrypted
+    if len(dec) != 1:
+        return "false"
+    d = dec[0]
+    recv = str(d[1][0][1])
+    z = "|call:Header::is_0rtt(*_1.0)|"
+    pk, ck = "|call:Header::key_phase(*_1.0)|", c.inp("_4", BOOL)
+    for n in (z, pk):
+        if n not in c.ex.decls:
+            return "false"
+    space = c.inp("call:Header::space(*_1.0)#discr", I64)
+    mismatch = and_(not_(eq(pk, ck)), eq(space, bv(2)))
+    flt = p.called(r"Option.*::filter")
+    fsome = eq(c.ex.read_key(st, flt[0][2] + "#discr", I64).t, bv(1)) if flt else None
+    if flt and flt[0][1][0] != ("agg", "_5"):
+        return "false"                        # the candidate for "previous keys" is this connection's prev_crypto
+    if recv.startswith("**_3@Some"):
+        which, want = "0rtt", z
+    elif recv.startswith("**call:<[PacketSpace; 3] as Index<SpaceId>>::index(*_2,call:Header::space(*_1.0))"):
+        which, want = "current", and_(not_(z), not_(mismatch))
+    elif flt and recv.startswith("**" + flt[0][2] + "@Some"):
+        which, want = "prev", and_(not_(z), mismatch, fsome)
+    elif recv.startswith("**_6@Some"):
+        which, want = "next", and_(not_(z), mismatch, not_(fsome) if fsome else "false")
+    else:
+        return "false"
+    conj = [want]
+    # the packet is authenticated under its own expanded packet number, header and payload
+    num = p.called(r"PacketNumber::expand$")
+    if not num or d[1][1][0] != "val" or d[1][1][1].t != num[0][2] or d[1][3] != ("ref", "*_1.%d" % c.field("packet.rs", "Packet", "payload")):
+        return "false"
+    rd = lambda k, s: c.ex.read_key(st, k, s).t
+    dec_ok = eq(rd(d[2] + "#discr", I64), bv(0))
+    is_ok = eq(rd("_0#discr", I64), bv(0))
+    # a packet that does not authenticate is dropped silently and never yields a result
+    conj.append(imp(not_(dec_ok), and_(not_(is_ok), eq(rd("_0@Err.0#discr", I64), bv(0)))))
+    some = and_(is_ok, eq(rd("_0@Ok.0#discr", I64), bv(1)))
+    conj.append(imp(is_ok, and_(dec_ok, eq(rd("_0@Ok.0#discr", I64), bv(1)))))
+    conj.append(imp(some, eq(rd("_0@Ok.0@Some.0.0", BV64), num[0][2])))
+    conj.append(imp(some, eq(rd("_0@Ok.0@Some.0.2", BOOL), "true" if which == "next" else "false")))
+    if which == "next":
+        # a peer-initiated key update must move forward and may not overtake an unacknowledged update of its own
+        rx = c.inp("*call:<[PacketSpace; 3] as Index<SpaceId>>::index(*_2,call:Header::space(*_1.0)).%d" % c.field("connection/spaces.rs", "PacketSpace", "rx_packet"), BV64)
+        prev_some = eq(c.inp("_5#discr", I64), bv(1))
+        unacked = c.inp("*_5@Some.0.%d" % c.field("connection/packet_crypto.rs", "PrevCrypto", "update_unacked"), BOOL)
+        conj.append(imp(some, and_("(bvugt %s %s)" % (num[0][2], rx), not_(and_(prev_some, unacked)))))
+    return and_(*conj)
+
+
+Q(name="e2_decrypt_packet_body_keys", props=["C04"], func=r"^decrypt_packet_body$",
+  pure=[r"Header::space$", r"Header::number$", r"PacketNumber::expand$", r"key_phase$", r"is_0rtt$", r"is_protected$", r"reserved_bits_valid$", r"Index<SpaceId>>::index$"],
+  allowed_panics=r"attempt to|unwrap_failed|handle_error|capacity_overflow",
+  functions=["packet_crypto::decrypt_packet_body"], pre=dpb_pre, post=dpb_post,
+  bounds="every header (space, key-phase bit, 0-RTT or not), connection key phase, previous / next keys present or not, every verdict of the AEAD (opaque): 0-RTT packets use the 0-RTT keys; a packet of the current phase (or outside the Data space) the current keys; a phase mismatch the previous keys iff Option::filter keeps prev_crypto (predicate: e2_decrypt_prev_filter), else the next keys; an unauthentic packet yields Err(None); incoming_key_update is reported exactly for packets authenticated under the next keys, and only with a packet number above rx_packet and no unacknowledged update outstanding",
+  replay=("conn_update_keys_native", lambda m: [dict(remote=1), dict(remote=0)]))
+
+
+def dpf_post(c, p):
+    st = p.p.state
+    ep = "**_2.%d" % c.field("connection/packet_crypto.rs", "PrevCrypto", "end_packet")
+    none = eq(c.inp(ep + "#discr", I64), bv(0))
+    pn = c.inp(ep + "@Some.0.0", BV64)
+    number = c.inp("*_1.0", BV64)
+    return eq(c.ex.read_key(st, "_0", BOOL).t, or_(none, ult(number, pn)))
+
+
+Q(name="e2_decrypt_prev_filter", props=["C04"], func=r"^decrypt_packet_body::\{closure#0\}$",
+  inline=[r"decrypt_packet_body::\{closure#0\}::\{closure#0\}$", r"is_none_or"],
+  functions=["packet_crypto::decrypt_packet_body::{closure#0} (the predicate handed to Option::filter)"],
+  pre=lambda c: ule(c.inp("**_2.%d#discr" % c.field("connection/packet_crypto.rs", "PrevCrypto", "end_packet"), I64), bv(1)), post=dpf_post,
+  bounds="every packet number and every end_packet: the previous keys are eligible iff the previous phase has no end packet yet or the packet number is below it",
+  replay=("conn_update_keys_native", lambda m: [dict(remote=1), dict(remote=0)]))
